@@ -112,6 +112,7 @@ type ValueOpts struct {
 	NoTime      bool
 	NoNonFinite bool // always true in practice: non-finite floats are known finding K3
 	NoFloat     bool
+	SmallInts   bool // integers stay small and exactly representable
 	KeyTricky   bool // mapping keys from the tricky pool as well
 	UID         *UID // when set, every mapping key carries a unique id suffix
 }
@@ -137,9 +138,13 @@ func Scalar(r *rand.Rand, o ValueOpts) *doc.Node {
 			n.Int = int64(r.IntN(4096))
 			n.IntForm = fmt.Sprintf("0o%o", n.Int)
 		case 2:
-			n.Int = r.Int64()
+			if !o.SmallInts {
+				n.Int = r.Int64()
+			}
 		case 3:
-			n.Int = -r.Int64()
+			if !o.SmallInts {
+				n.Int = -r.Int64()
+			}
 		}
 		return n
 	case 4:
@@ -147,6 +152,9 @@ func Scalar(r *rand.Rand, o ValueOpts) *doc.Node {
 			return doc.I(int64(r.IntN(10)))
 		}
 		fs := []float64{0.5, -1.25, 3.0, 1e3, 1e21, 1.5e-7, 123456.789, -0.0, 2.0, 1e100}
+		if o.SmallInts {
+			fs = []float64{0.5, -1.25, 3.0, 1e3, 1.5e-7, 123456.789, 2.0}
+		}
 		return doc.F(Pick(r, fs))
 	case 5:
 		if o.NoTime {
